@@ -63,8 +63,11 @@ type Violation struct {
 
 // Outcome is what one execution reports.
 type Outcome struct {
-	Violation  *Violation     `json:"violation,omitempty"`
-	Known      []string       `json:"known,omitempty"`
+	Violation *Violation `json:"violation,omitempty"`
+	Known     []string   `json:"known,omitempty"`
+	// Soft are violations that did not stop the run (the run kept checking);
+	// the worker promotes the first one that is not a listed known finding.
+	Soft       []*Violation   `json:"soft,omitempty"`
 	Evals      int            `json:"evals"`
 	NonTrivial bool           `json:"nontrivial"`
 	Faults     map[string]int `json:"faults,omitempty"`
@@ -240,6 +243,15 @@ func ExecPlanFile(path string) int {
 		return 2
 	}
 	out := execGuard(prop, &plan)
+	if out.Violation == nil {
+		findings := LoadFindings(filepath.Join(os.Getenv("VERIF_DIR"), "known_findings.json"))
+		for _, sv := range out.Soft {
+			if findings.Known(sv.Property, sv.Signature) == nil {
+				out.Violation = sv
+				break
+			}
+		}
+	}
 	json.NewEncoder(os.Stdout).Encode(out)
 	return 0
 }
@@ -293,6 +305,20 @@ func Worker(prop *Property, tier string, seed uint64, idx, of int, w *bufio.Writ
 			w.Flush()
 			return 2
 		}
+		if out.Violation == nil {
+			seenSoft := map[string]bool{}
+			for _, sv := range out.Soft {
+				if findings.Known(sv.Property, sv.Signature) != nil {
+					if !seenSoft[sv.Signature] {
+						seenSoft[sv.Signature] = true
+						out.Known = append(out.Known, sv.Signature)
+					}
+					continue
+				}
+				out.Violation = sv
+				break
+			}
+		}
 		if v := out.Violation; v != nil {
 			if k := findings.Known(v.Property, v.Signature); k != nil {
 				out.Known = append(out.Known, v.Signature)
@@ -300,7 +326,15 @@ func Worker(prop *Property, tier string, seed uint64, idx, of int, w *bufio.Writ
 			} else {
 				min := Minimise(prop, plan, v, 90*time.Second)
 				rec.Plan = min
-				if mo := execGuard(prop, min); mo.Violation != nil && mo.Violation.Signature == v.Signature {
+				mo := execGuard(prop, min)
+				if mo.Violation == nil {
+					for _, sv := range mo.Soft {
+						if sv.Signature == v.Signature {
+							mo.Violation = sv
+						}
+					}
+				}
+				if mo.Violation != nil && mo.Violation.Signature == v.Signature {
 					mo.Known = out.Known
 					out, v = mo, mo.Violation
 					rec.Out = mo
@@ -324,7 +358,15 @@ func Minimise(prop *Property, plan *Plan, v *Violation, budget time.Duration) *P
 	deadline := time.Now().Add(budget)
 	same := func(p *Plan) bool {
 		out := execGuard(prop, p)
-		return out.Violation != nil && out.Violation.Property == v.Property && out.Violation.Signature == v.Signature
+		if out.Violation != nil && out.Violation.Property == v.Property && out.Violation.Signature == v.Signature {
+			return true
+		}
+		for _, sv := range out.Soft {
+			if sv.Property == v.Property && sv.Signature == v.Signature {
+				return true
+			}
+		}
+		return false
 	}
 	cur := plan.Clone()
 	// the original must reproduce; otherwise report it unshrunk
